@@ -230,6 +230,22 @@ c.req("run-is-complete", lambda data_iter: _rl_complete(data_iter))
 c.ens("one-run-decoded-per-ISO", lambda data_iter, decoded_array, old, __exit__: _rl_spec(data_iter, decoded_array, old, __exit__))
 
 
+# the same step on data that ends inside the run (damaged payloads, C13): no exception, what is there is taken, the cursor stops at the end
+c = fragment("pdfminer.runlength:rldecode#damaged", "one-run-of-a-truncated-payload", _rl_body, props=["C03", "C13"], mode="stmts")
+c.modname, c.qualname = "pdfminer.runlength", "rldecode"
+c.param("data_iter", _Iter()).param("decoded_array", T.IntList(maxlen=6))
+c.mod("decoded_array").mod("data_iter")
+c.skip_cross = True
+c.req("run-is-cut-short", lambda data_iter: Not(_rl_complete(data_iter)))
+c.ens("takes-the-bytes-that-are-there-and-stops-at-the-end", lambda data_iter, decoded_array, old: (lambda d, p, L_: And(
+    eq(data_iter.pos, d.n),
+    If(lt(L_, 128),
+       And(eq(ln(decoded_array), ln(old.decoded_array) + (d.n - p - 1)),
+           ForAllInt(0, d.n - p - 1, lambda t: eq(at(decoded_array, ln(old.decoded_array) + t), d.at(p + 1 + t)), "t")),
+       eq(ln(decoded_array), ln(old.decoded_array))),
+    ForAllInt(0, ln(old.decoded_array), lambda t: eq(at(decoded_array, t), at(old.decoded_array, t)), "t")))(data_iter._data, data_iter._p0, data_iter._data.at(data_iter._p0)))
+
+
 def _rl_complete(it):
     d, p = it._data, it._p0
     L = d.at(p)
